@@ -318,6 +318,17 @@ type kitBody struct {
 	expKind   int
 }
 
+// kitHeaderGet reads a request header the way a server does: case-insensitively.
+func kitHeaderGet(h http.Header, name string) string {
+	val := ""
+	for k, v := range h {
+		if strings.EqualFold(k, name) && len(v) > 0 {
+			val = v[0]
+		}
+	}
+	return val
+}
+
 // prepare draws all nondeterminism of the provider before the check runs, so that states which
 // took different provider behaviours consumed the same inputs and can be merged where they
 // reconverge. answerKind: 0 transport error, 1 non-200 status, 2 body breaks off, 3 body.
@@ -336,7 +347,7 @@ func (p *symIdP) RoundTrip(req *http.Request) (*http.Response, error) {
 	if p.yield {
 		vn.Yield("idp")
 	}
-	call := kitIdPCall{method: req.Method, auth: req.Header.Get("Authorization"), ctype: req.Header.Get("Content-Type")}
+	call := kitIdPCall{method: req.Method, auth: kitHeaderGet(req.Header, "authorization"), ctype: kitHeaderGet(req.Header, "content-type")}
 	if req.Body != nil {
 		b, _ := io.ReadAll(req.Body)
 		form, _ := url.ParseQuery(string(b))
